@@ -16,35 +16,42 @@
 (*       text a source that does not parse, off the offset of the offending    *)
 (*       token, obs the position of the first error the parser reports.        *)
 (* The specification (ErrSpec over ES5Core) computes the required outcome;     *)
-(* lines that differ are printed with it, and with the outcome under the       *)
-(* named deviations OpenDev when that explains the observation.               *)
+(* a line that differs is printed with it (status "strict") and judged again   *)
+(* under the named deviations OpenDev: "dev" they explain the observation,     *)
+(* "bad" they do not.                                                          *)
 EXTENDS Integers, Sequences, TLC, Json
 CONSTANTS OpenDev, Fuel
-VARIABLES blk, i
+VARIABLES blk, i, ph
 
-S == INSTANCE ErrSpec WITH Dev <- {}
-L == INSTANCE ErrSpec WITH Dev <- OpenDev
+(* ONE instance of the specification (TLC's start-up cost grows with every instance of  *)
+(* the evaluator): phase 0 judges a case strictly (Dev = {}); only a case the strict     *)
+(* specification rejects goes on to phase 1, where the same operators are evaluated      *)
+(* with Dev = the open findings.                                                        *)
+E == INSTANCE ErrSpec WITH Dev <- (IF ph = 1 THEN OpenDev ELSE {})
 
 File == ndJsonDeserialize("trace.ndjson")
 K == 64
-Init == blk \in 1..K /\ i = 0
-Next == i = 0 /\ i' \in {j \in 1..Len(File) : j % K = blk - 1} /\ UNCHANGED blk
 
-JudgeRun(ev) ==
-    LET so == S!RunCase(ev.prog, ev.files, ev.tlimit, ev.named, Fuel)
-    IN  IF so.und THEN PrintT("VJSON " \o ToJson([id |-> ev.id, status |-> "und"]))
-        ELSE IF S!Conforms(so, ev.obs) THEN TRUE
-        ELSE LET lo == IF OpenDev = {} THEN so ELSE L!RunCase(ev.prog, ev.files, ev.tlimit, ev.named, Fuel)
-             IN  PrintT("VJSON " \o ToJson([id |-> ev.id, status |-> IF ~lo.und /\ L!Conforms(lo, ev.obs) THEN "dev" ELSE "bad",
-                                             want |-> so, dev |-> IF lo = so THEN <<>> ELSE <<lo>>]))
+Required(ev) == IF ev.kind = "run" THEN E!RunCase(ev.prog, ev.files, ev.tlimit, ev.named, Fuel)
+                ELSE E!SyntaxPos(ev.text, ev.off)
+Accepts(o, ev) == IF ev.kind = "run" THEN E!Conforms(o, ev.obs) ELSE o = ev.obs
+Und(o, ev) == ev.kind = "run" /\ o.und
 
-JudgeSyntax(ev) ==
-    LET sp == S!SyntaxPos(ev.text, ev.off)
-    IN  IF sp = ev.obs THEN TRUE
-        ELSE LET lp == L!SyntaxPos(ev.text, ev.off)
-             IN  PrintT("VJSON " \o ToJson([id |-> ev.id, status |-> IF lp = ev.obs THEN "dev" ELSE "bad",
-                                             want |-> sp, dev |-> IF lp = sp THEN <<>> ELSE <<lp>>]))
+(* One textual use of the specification for both phases (TLC's start-up analysis walks   *)
+(* every call path into the evaluator).  Phase 0: prints "und" or, when the strict        *)
+(* specification rejects the observation, its requirement ("strict"), and is TRUE iff    *)
+(* the case must be judged again.  Phase 1: prints the verdict: "dev" the observation is *)
+(* what the named deviations produce, "bad" it is not.                                   *)
+Judge ==
+    LET ev == File[i]
+        o == Required(ev)
+    IN  IF ph = 0 THEN
+            (IF Und(o, ev) THEN PrintT("VJSON " \o ToJson([id |-> ev.id, status |-> "und"])) /\ FALSE
+             ELSE IF Accepts(o, ev) THEN FALSE
+             ELSE PrintT("VJSON " \o ToJson([id |-> ev.id, status |-> "strict", want |-> o])))
+        ELSE PrintT("VJSON " \o ToJson([id |-> ev.id, status |-> IF ~Und(o, ev) /\ Accepts(o, ev) THEN "dev" ELSE "bad", dev |-> <<o>>])) /\ FALSE
 
-Check ==
-    i = 0 \/ (LET ev == File[i] IN IF ev.kind = "run" THEN JudgeRun(ev) ELSE JudgeSyntax(ev))
+Init == blk \in 1..K /\ i = 0 /\ ph = 0
+Next == \/ i = 0 /\ i' \in {j \in 1..Len(File) : j % K = blk - 1} /\ UNCHANGED <<blk, ph>>
+        \/ i # 0 /\ Judge /\ ph' = 1 /\ UNCHANGED <<blk, i>>
 =============================================================================
